@@ -11,6 +11,8 @@ BIN = os.path.join(VERIF, ".bin")
 SPEC = os.path.join(VERIF, "spec")
 NCPU = int(os.environ.get("VERIF_NCPU", "16"))
 
+TLC_CP = "/opt/veriftools/tla/tla2tools.jar:/opt/veriftools/tla/CommunityModules-deps.jar"
+
 GOENV = dict(os.environ, GOFLAGS="-mod=mod", GOPROXY="off", GOSUMDB="off", GOTOOLCHAIN="local")
 
 
@@ -215,7 +217,7 @@ class TLCResult:
 
 
 def run_tlc(module, cfg=None, files=None, workers=None, timeout_s=600, extra=None, defines=None,
-            java_opts="-Xss256m", expect_violation=False, simulate=None, coverage=False, prefix=("CASE ", "V ")):
+            java_opts="-Xss512m", expect_violation=False, simulate=None, coverage=False, prefix=("CASE ", "V ")):
     """Run TLC on spec/<module>.tla in a scratch copy of spec/.
 
     files: dict name -> text, written next to the modules (ndjson inputs).
@@ -236,15 +238,16 @@ def run_tlc(module, cfg=None, files=None, workers=None, timeout_s=600, extra=Non
                 fh.write("\nCONSTANTS\n")
                 for k, v in defines.items():
                     fh.write(f"  {k} = {v}\n")
-        cmd = ["timeout", str(int(timeout_s)), "tlc", "-workers", str(workers or NCPU), "-metadir",
-               os.path.join(tmp, "meta"), "-config", cfg]
+        # NOTE: -Xss must be on the java command line: the launcher sizes the main thread (which
+        # evaluates initial states and their invariants) from it; JAVA_TOOL_OPTIONS comes too late.
+        cmd = ["timeout", str(int(timeout_s)), "java", java_opts, "-XX:+UseParallelGC", "-cp", TLC_CP, "tlc2.TLC",
+               "-workers", str(workers or NCPU), "-metadir", os.path.join(tmp, "meta"), "-config", cfg]
         if simulate:
             cmd += ["-simulate", simulate]
         if coverage:
             cmd += ["-coverage", "1"]
         cmd += (extra or []) + [module + ".tla"]
         env = dict(os.environ)
-        env["JAVA_TOOL_OPTIONS"] = (env.get("JAVA_TOOL_OPTIONS", "") + " " + java_opts).strip()
         t0 = time.time()
         p = subprocess.run(cmd, cwd=tmp, env=env, capture_output=True, text=True)
         res = TLCResult()
@@ -290,7 +293,7 @@ def run_tlc(module, cfg=None, files=None, workers=None, timeout_s=600, extra=Non
 
 
 def tail(s, n):
-    return "\n".join(s.splitlines()[-n:])
+    return "\n".join([l for l in s.splitlines() if not l.startswith(('"CASE ', '"V '))][-n:])
 
 
 def payloads(res, prefix):
